@@ -686,10 +686,21 @@ def _tilt_plane(np, ifg, before, after, mdl, i, k, bits, viol):
     # of a plane to what is left, with or without an offset term (either model is a fair reading)
     z = after[v].astype(float)
     left = []
+    cond = 1.0
     for cols in (A[:, :2], A):
-        cf, *_ = np.linalg.lstsq(cols, z, rcond=None)
+        cf, _res, _rk, sv = np.linalg.lstsq(cols, z, rcond=None)
         left.append(max(abs(float(cf[0])), abs(float(cf[1]))))      # coordinates are scaled to |.| <= 1
-    if z.size and not min(left) <= (1e-3 if lowp else 1e-7) * mdl.scale:
+        if sv.size and float(sv.min()) > 0:
+            cond = max(cond, float(sv.max() / sv.min()))
+    tol = (1e-3 if lowp else 1e-7) * mdl.scale
+    if lowp and after.dtype == np.float32 and _cfg.precision != np.float32 and not any(
+            np.asarray(getattr(c, w)).dtype == np.float32 for w in "xy"):
+        # single-precision DATA under the double-precision configuration (coordinates are double): what a
+        # correct fit leaves is the rounding of the float32 samples it was given, amplified by the
+        # conditioning of the plane fit on these valid samples - not a fixed fraction of the historical scale
+        sc_now = float(np.abs(before[v]).max()) if z.size else 0.0
+        tol = min(tol, max(1e-7 * mdl.scale, 300 * float(np.finfo(np.float32).eps) * sc_now * cond))
+    if z.size and not min(left) <= tol:
         viol("tilt-refit", i, k, bits, left=min(left), scale=mdl.scale)
 
 
